@@ -100,7 +100,7 @@ _PROG_RULE = ('fonts enumerated by gen/progenum.py and filtered by the REAL load
               '{NEXT, PUT_GLYPH x|y, PUT_SUBS -1|0|+1, PUT_COPY -1|0|+1, INSERT, DELETE, ASSOC, attach.to -2..2, ATTR_SET adv/shift/att/insert, IATTR_SET user, SET_FEAT, slot/glyph-attr readers} x 6 terminators '
               '(RET_ZERO, POP_RET -2..2), in 3 (quick) / 6 (thorough) rule contexts (rule length 1..3, pre-context 0..1, maxRuleLoop 1/2/5, substitution or positioning pass) followed by a fixed attaching pass; '
               '(constraint) every constraint program of <=4 / <=5 atoms over 20 atoms incl. CNTXT_ITEM bodies netting 0/+1/+2, plus CNTXT_ITEM bodies of k = 2..16 pushes (skipped at run time on the other slots) followed by k-1 AND/ADD/OR; (twopass) all ordered pairs (thorough: triples) of 18 hand-written attach/re-attach/delete/insert/copy/assoc rules '
-              'in two passes / one pass / substitution+positioning, LTR and RTL fonts; (manyrules) scale seeds with 43..200 rules per rule length 1..4 ending in successive success states (candidate lists beyond the 128-entry rule buffers of the engine); (slotattrs) every slot-attribute code 0..79 through ATTR_SET / ATTR_ADD / PUSH_SLOT_ATTR / IATTR_SET / PUSH_ISLOT_ATTR / IATTR_ADD with sub-indices {0,1,3,255}, in fonts with 0/1/2 justification levels and 1/3 user attributes, substitution and positioning pass; (growth) a substitution rule inserting k in {1,31,62,63,64,65,100} slots per glyph, optionally a second doubling substitution pass, then a pass at iPos that does nothing / INSERTs / DELETEs (the 64-slots-per-character budget and the refusal by the loader of length-changing opcodes after iPos).  Every accepted font x every text of length 0..3 (thorough 0..4) over {a, b, unmapped} + astral/mark/long texts x dir flags {0,1,3,6} (thorough 0..7) x {font NULL, ppm 12}. ')
+              'in two passes / one pass / substitution+positioning, LTR and RTL fonts; (manyrules) scale seeds with 43..200 rules per rule length 1..4 ending in successive success states (candidate lists beyond the 128-entry rule buffers of the engine); (slotattrs) every slot-attribute code 0..79 through ATTR_SET / ATTR_ADD / PUSH_SLOT_ATTR / IATTR_SET / PUSH_ISLOT_ATTR / IATTR_ADD with sub-indices {0,1,3,255}, in fonts with 0/1/2 justification levels and 1/3 user attributes, substitution and positioning pass; (growth) a substitution rule inserting k in {1,31,62,63,64,65,100} slots per glyph, optionally a second doubling substitution pass, then a pass at iPos that does nothing / INSERTs / DELETEs (the 64-slots-per-character budget and the refusal by the loader of length-changing opcodes after iPos); (classmap) every class map of 1..2 (thorough 1..3) classes from a 5-entry catalog (empty, 1..3 members) x every linear/lookup split x PUT_GLYPH / PUT_SUBS in the 8- and 16-bit forms over every class index incl. one past the map (index equal to the size of an output class, empty classes, an output class ending the class data).  Every accepted font x every text of length 0..3 (thorough 0..4) over {a, b, unmapped} + astral/mark/long texts x dir flags {0,1,3,6} (thorough 0..7) x {font NULL, ppm 12}. ')
 
 for _p, _what in (('C02', 'oracle: ASan/UBSan silence, rule-loop counter hook <= maxRuleLoop x (slots + insert budget + 2), n_slots <= 64 x max(1,nChars), all gr_seg_*/gr_slot_*/gr_cinfo_* queries incl. every gr_slot_attr code, allocation balance, table borrow discipline'),
                   ('C03', 'oracle: next/prev chain visits exactly n_slots distinct slots ending at last, prev inverse, indices a permutation, finite positions, gid < n_glyphs'),
@@ -108,7 +108,7 @@ for _p, _what in (('C02', 'oracle: ASan/UBSan silence, rule-loop counter hook <=
                   ('C05', 'oracle: n_cinfo == nChars, characters and bases equal the reference decoding, slot before/after/original in range, every character covered, cinfo before/after in [0,n_slots)')):
     CHECKS[_p] = dict(
         level='exploration',
-        steps=[dict(name='program_enumeration', py=stream_families(['growth', 'slotattrs', 'twopass', 'manyrules', 'deep', 'constraint', 'action'], _p), targets=[('asan', 'c02_stream')]),
+        steps=[dict(name='program_enumeration', py=stream_families(['classmap', 'growth', 'slotattrs', 'twopass', 'manyrules', 'deep', 'constraint', 'action'], _p), targets=[('asan', 'c02_stream')]),
                dict(name='accepted_load_mutants', py=cached_binary('c01_load', _p, 'C01'), targets=[('asan', 'c01_load')]),
                dict(name='shipped_corpora', py=cached_binary('c03_corpus', _p, 'C02'), targets=[('asan', 'c03_corpus')])],
         rule=_PROG_RULE + 'Additionally every C01 load mutant (single byte / field / field pair / truncation deviations of the seed fonts) that the loader accepts is shaped with 4 texts x dir {0,1,3}; and every shipped font x corpus lines/words (quick: first 1500, the collision fonts all) + every substring of 1..4 characters of the first lines (texts that start inside a cluster or with a mark) and every synthesised seed font (all S-full / S-min / Feat variants: compressed, RTL, line-end flag, pass bits, bidi step with mirroring, dense attributes, cmap edges ...) x all strings of length 0..3 over 11 characters (letters, space, marks, pseudo-glyph character, supplementary character), x dir 0..7 x {font NULL, ppm 16}; (encodings) UTF-16 and UTF-32 input: every unit sequence of length 1..4 over alphabets with paired, unpaired and reversed surrogates / out-of-range values on two fonts, char-infos compared with the reference decoding. ' + _what + '. distinct = distinct structural segment dumps (slots, glyphs, attachments, associations) observed',
@@ -136,7 +136,7 @@ CHECKS['C15'] = dict(
     quick_is_thorough=True,
     level='exploration',
     steps=[dict(mode='asan', bin='c15_scale')],
-    rule='(every shipped font x first 60 (quick) / all (thorough) corpus lines and words) + (S-full, S-full RTL, S-full v3, S-min x ALL strings of length 0..3 (thorough 0..4) over {a,b,c,d,e,space,acute,grave}) x dir {0,1,3} x ppm {0.5,1,7.3,12,48.5,upem,4096}: '
+    rule='(every shipped font x first 60 (quick) / all (thorough) corpus lines and words) + (S-full, S-full RTL, S-full v3, S-min, S-full with pass bits, with a bidi step (LTR and RTL), and S-full-jatt LTR / RTL whose positioning pass sets justify.width on an attached glyph that keeps its advance and on a base, x ALL strings of length 0..3 (thorough 0..4) over {a,b,c,d,e,space,acute,grave}) x dir {0,1,3} x ppm {0.5,1,7.3,12,48.5,upem,4096}: '
          'structural dump identical to the font=NULL run; origin x/y, gr_slot_advance_X (with the face and with face NULL) / _Y, segment advance within 1e-4 relative of design value x ppm/upem. '
          '(justified_lines) Padauk, Charis, Scheherazade, general.ttf x 25 (thorough 200) corpus items and S-full / S-full RTL x all strings of length 4 (thorough 5) over {a,b,space,acute,d} containing a space, paragraph direction = font direction: whole segment and BOTH lines after a break before each of the first 4 cluster starts x ppm {9,12,96,4096} x width factor {1.3,0.9}: gr_seg_justify(W x ppm/upem, font) must return and position every slot of the line as gr_seg_justify(W, NULL) scaled by ppm/upem, within one design unit per slot (the justifier hands out whole design units). distinct = distinct structural dumps',
     level_text='Bounded exhaustive product of fonts x texts x directions x ppm values on the real code with a differential oracle (design-unit run) and a linear-scaling oracle.',
@@ -161,12 +161,12 @@ CHECKS['C10'] = dict(
 CHECKS['C16'] = dict(
     quick_is_thorough=True,
     level='model_checking',
-    steps=[dict(mode='asan', bin='c16_borrow')],
+    steps=[dict(mode='asan', bin='c16_borrow'), dict(name='load_mutants_release_discipline', py=cached_binary('c01_load', 'C16', 'C01'), targets=[('asan', 'c01_load')])],
     rule='explicit-state BFS over API histories on a memory face whose get_table returns a fresh exact-size heap copy per call and whose release_table frees it (outstanding set tracked; release of a non-outstanding pointer recorded): '
          'roots = fonts {S-min, S-full, S-full compressed, small.ttf} (thorough + Padauk) x faceOptions {0,2,4,6,7} x {release fn, no release fn}; operations = make font, 12 gr_make_seg variants (3 texts x dir x font/NULL), featureval_for_lang (default / language), clone, '
          'feature label in 3 encodings, value label, justify, linebreak, is_char_supported, full face dump, and destroy of every live object in every order that respects ownership (fonts/segments before the face; feature values and labels may outlive it); depth 5 (thorough 7), '
          'deduplicated on (live objects with parameters, outstanding borrows); every history is replayed on a fresh world and closed by destroying the rest in a legal order. Invariants after every operation: no foreign/double release, no get_table after load with preloadAll, ASan silence; at quiescence: no outstanding borrow, allocation balance zero. '
-         'Environment deviations: every table x {NULL, length 0, length 3} x options 0..7 x {release, no release}: outstanding set empty when gr_make_face returns NULL. Rejecting fonts: S-full with ONE unreadable glyph (outline box xMin > xMax; two positions) x options 0..7 x {release, no release}: preloading creation fails after the glyph loader borrowed its tables, lazy faces load and meet the glyph while shaping: same borrow invariants and allocation balance. File face: gr_make_file_face on 5 (thorough 7) fonts x options 0..7 x {whole file, cut to 3/4, 1/2, 12 bytes, empty, missing}: create, shape, query labels and features, destroy; allocation balance zero and no file descriptor left open, also after a failed creation',
+         'Environment deviations: every table x {NULL, length 0, length 3} x options 0..7 x {release, no release}: outstanding set empty when gr_make_face returns NULL. Rejecting fonts: S-full with ONE unreadable glyph (outline box xMin > xMax; two positions) x options 0..7 x {release, no release}: preloading creation fails after the glyph loader borrowed its tables, lazy faces load and meet the glyph while shaping: same borrow invariants and allocation balance. File face: gr_make_file_face on 5 (thorough 7) fonts x options 0..7 x {whole file, cut to 3/4, 1/2, 12 bytes, empty, missing}: create, shape, query labels and features, destroy; allocation balance zero and no file descriptor left open, also after a failed creation. Load mutants: every deviation of the C01 enumeration (bytes, fields, field pairs, truncations, compressed payloads: see C01) is loaded through the same bookkeeping face; whether the library accepts or rejects the mutant, no borrow may stay outstanding, no foreign pointer may be released and the allocation balance must return to zero (one cached run per tree shared with C01)',
     state_meaning='states = distinct (live objects, outstanding borrows) configurations; transitions = API operations executed on real objects, invariants evaluated after each',
     level_text='Explicit-state BFS over API histories against an environment model of the table callbacks (fresh copies, strict bookkeeping), invariants in every state, plus exhaustive single-table environment deviations.',
     level_note='Trusted: environment model (src/common/memface.hpp), ASan use-after-free detection on released copies, allocator statistics for the balance. Object multiplicities are bounded (1 face, 1 font, 2 segments, 2 feature values, 1 label).',
@@ -177,7 +177,7 @@ CHECKS['C16'] = dict(
 CHECKS['C08'] = dict(
     level='model_checking',
     steps=[dict(mode='asan', bin='c08_history')],
-    rule='roots = fonts {S-min, S-full, small.ttf, S-full with pass bits (segments made of certain glyphs skip passes)} (thorough + Padauk) x faceOptions {0, preloadGlyphs, cacheCmap, preloadAll} x font {gr_make_font, advance-callback font}; '
+    rule='roots = fonts {S-min, S-full, small.ttf, S-full with pass bits (segments made of certain glyphs skip passes), S-twoclass (one glyph in two lookup classes), S-full with ONE unreadable glyph (demand-loading faces substitute glyph 0 on every lookup; preloading faces refuse the font)} (thorough + Padauk) x faceOptions {0, preloadGlyphs, cacheCmap, preloadAll} x font {gr_make_font, advance-callback font}; '
          'operations on ONE face and ONE font: 32 gr_make_seg variants (4 texts x dir x features x font/NULL, up to 2 live segments), destroy, justify, linebreak, feature/value label, featureval_for_lang, is_char_supported, full face dump, second font create/destroy; '
          'two searches per root: BFS to depth 4 (thorough 6) deduplicated on the mutable-state key (set of loaded glyphs, set of loaded boxes, loader present, name table read, set of cached advances, live segments) and a plain enumeration without deduplication to depth 2 (thorough 3); '
          'in EVERY visited state 72 probe segments (texts x dir {0,1,3} x features {default, language, modified} x {font, NULL}) and the face dump are compared with those of a fresh face. Each history is replayed on a fresh face. '
@@ -260,7 +260,7 @@ CHECKS['C06'] = dict(
     steps=[dict(name='gdl_lite', py=stream_simple('gdl_lite', 'gdl_lite.py', 'c06_stream', thorough_deadline='6000'), targets=[('asan', 'c06_stream')])],
     rule='GDL-lite programs (gen/gdl_lite.py) compiled to Silf/Glat/Gloc/cmap tables by the synthesiser: (single) every rule with pre-context 0..2 (uniform class), body length 1..3 (total <= 4 quick / 5 thorough) over 3 (thorough 5) overlapping input classes, '
          'at most two body items carrying one action from {put_glyph x|z, delete, insert z, user0=3, advance=777, put_subs([a b]->[x y])}, optional constraint (glyph attribute == v, feature == 1; thorough: on every item); (pair) ordered pairs from a 64-rule core that overlaps on many strings '
-         '(precedence by sort key, by rule order, by constraint; mixed pre-context lengths in one pass); (twopass) substitution pass then positioning pass (shift, advance, user attribute, attachment of an inserted zero-advance mark); (attr_then_pair) a pass setting a user attribute / advance followed by a pass with two core rules (inserted slots must be fresh); (backup_chain) MaxRuleLoop M in 2..5 with k <= M-1 single-slot rules that substitute and resume at their own slot (no progress, the loop limit must not intervene), then a rule spanning 2-3 slots (resuming after it or inside it), then a rule that could match inside that output; (class_lookup) PUT_SUBS through lookup classes of every size 1..8 in two member orders, with and without pre-context, every member substituted alone and in a run; (attr_ops / attr_read) ATTR_ADD / ATTR_SUB / IATTR_ADD on one item of a rule, constraints reading advance / shift of the item itself, of the pre-context item and of the following item, also after a first pass changed them; (direction) RTL fonts and reverse-direction passes. Order: the hand-shaped families first, then the single rules by total length, unconstrained before constrained (1.37 M programs in the thorough tier, about 40 min on 16 cores; a deadline cut would lose the tail of that order and is reported as exhaustive=false). '
+         '(precedence by sort key, by rule order, by constraint; mixed pre-context lengths in one pass); (twopass) substitution pass then positioning pass (shift, advance, user attribute, attachment of an inserted zero-advance mark); (attr_then_pair) a pass setting a user attribute / advance followed by a pass with two core rules (inserted slots must be fresh); (backup_chain) MaxRuleLoop M in 2..5 with k <= M-1 single-slot rules that substitute and resume at their own slot (no progress, the loop limit must not intervene), then a rule spanning 2-3 slots (resuming after it or inside it), then a rule that could match inside that output; (class_lookup) PUT_SUBS through lookup classes of every size 1..8 in two member orders, with and without pre-context, every member substituted alone and in a run; (copy) PUT_COPY from the following / preceding / pre-context INPUT slot: swaps, three-slot rotations, copy followed by an attribute assignment, between a pass that marks glyphs with user attributes beyond one byte and negative and a pass testing them; (attr_ops / attr_read) ATTR_ADD / ATTR_SUB / IATTR_ADD on one item of a rule, constraints reading advance / shift of the item itself, of the pre-context item and of the following item, also after a first pass changed them; (direction) RTL fonts and reverse-direction passes. Order: the hand-shaped families first, then the single rules by total length, unconstrained before constrained (1.37 M programs in the thorough tier, about 40 min on 16 cores; a deadline cut would lose the tail of that order and is reported as exhaustive=false). '
          'Every program x every string of length 1..3 (thorough 1..4) over {a,b,c,d} + strings with an unmapped character x dir {0,1} (x feature 0/1 when tested): the reference interpreter (written from doc/GTF.adoc and doc/OpCodes.adoc: longest sort key first then earliest rule, constraint true, in-place stream, cursor after the rule, advance reset on glyph change, '
          'pen accumulation with shift and attachment offsets) must equal the engine on glyph ids, parent indices, advance/shift/user/attach attributes and, for LTR unreversed programs, design-unit origins and the segment advance',
     state_meaning='states = (program, string, direction, feature) evaluations; every one is a reference trace validated against the implementation',
